@@ -434,7 +434,9 @@ def gen_case(rng, maxlen, sers=SERIALIZERS):
                     else:
                         rows.append([q, n, a, rng.randrange(K), "o", rng.randrange(len(VALUES))])
     r = rng.random()
-    if r < 0.06:
+    if maxlen > 24 and r < 0.75:
+        L = rng.randint(13, maxlen)          # the long-batch run of the thorough tier
+    elif r < 0.06:
         L = 0
     elif r < 0.16:
         L = 1
